@@ -251,6 +251,8 @@ partial def pyApply (op : POp) (vs : List PV) : Except PE PV :=
     | [.str s] => if s.isEmpty then .ok (.int 0) else .error .typeErr     -- sum('') == 0
     | _ => .error .typeErr
   | "mklist" => .ok (.list vs)
+  | "kwsub" => match vs with | [_, _] => pyApply "sub" vs | _ => .error .typeErr       -- kwsub(x, y) called positionally
+  | "kwpair" => match vs with | [x, y] => .ok (.list [x, y]) | _ => .error .typeErr
   | "round" =>
     -- round(x) -> int (ties to even); round(x, 0) -> a value of x's own type
     let halfEven (n : Int) (d : Nat) : Int :=
@@ -435,6 +437,12 @@ def parseStmt (j : Json) : Except String (Stmt PV POp) := do
   | "lit" => return .lit (← parseVal (← j.getObjVal? "v"))
   | "obj" => return .obj (← (← getArr j "vs").toList.mapM parseVal)
   | "rootp" => return .rootp (← getNat j "p")
+  | "rootm" =>
+    -- rx(obj.m) for a method decorated with @param.depends(all parameters of obj): `_fn_params` are those
+    -- parameters, the value is obtained by calling the method, which reads them: the bound function mklist
+    let p ← getNat j "p"
+    let k ← getNat j "k"
+    return .bind "mklist" ((List.range k).map fun i => Arg.param (p + i))
   | "attr" =>
     -- `acc = n.name` (plain attribute access).  The accessor is a copy of n whose `_resolve` applies
     -- `getattr(current, name, current)` at the end; it is rendered as the model's method-call statement with
@@ -446,6 +454,19 @@ def parseStmt (j : Json) : Except String (Stmt PV POp) := do
       -- round(n, 0): the literal 0 is an operand of the recorded operation
       return .op (← getNat j "n") "round" false [.lit (.int 0)]
     let (o, rev) ← formOp (← getStr j "op")
+    match getOpt j "kw" with
+    | some kws =>
+      -- keyword arguments of the operation: resolved after the positional ones (rx._eval_operation), dependencies
+      -- collected after them (rx._compute_params); their names travel in the function name
+      let kw ← (← kws.getArr?).toList.mapM fun p => do
+        let a ← p.getArr?
+        if a.size != 2 then throw "keyword pair expected"
+        return ((← a[0]!.getStr?), (← parseArg a[1]!))
+      let pos ← parseArgs j "args"
+      if !kw.isEmpty then
+        if rev then throw "keyword argument of a reflected operator"
+        return .op (← getNat j "n") (o ++ "#k=" ++ ",".intercalate (kw.map (·.1))) false (pos ++ kw.map (·.2))
+    | Option.none => pure ()
     let (args, shape) ← parseShaped j "args"
     match shape with
     | Option.none => return .op (← getNat j "n") o rev args
@@ -553,7 +574,7 @@ def flagsOf (w : World PV PE POp) (ids : List Nat) : Json :=
 def comparable (kind : String) (subjIsAccessor : Bool) : List Nat :=
   if subjIsAccessor then [] else      -- pipelines through an attribute accessor are rendered with other nodes
   match kind with
-  | "lit" | "rootp" | "bind" | "where" => [0]
+  | "lit" | "rootp" | "rootm" | "bind" | "where" => [0]
   | "op" => [0, 1]
   | "meth" => [1, 2]
   | "meth2" => [1, 2, 3, 4]
@@ -561,7 +582,7 @@ def comparable (kind : String) (subjIsAccessor : Bool) : List Nat :=
 
 def allocated (kind : String) : Nat :=
   match kind with
-  | "lit" | "rootp" | "bind" | "where" => 1
+  | "lit" | "rootp" | "rootm" | "bind" | "where" => 1
   | "op" => 2 | "meth" | "attr" => 3 | "meth2" => 5
   | _ => 0
 
